@@ -1,3 +1,4 @@
+import Wax.Behavior
 import Wax.Walk
 import Wax.Parse
 import Wax.RuleS
@@ -112,6 +113,24 @@ end Cmd
 
 open Cmd
 
+/-- the minimum field of a walk request names the constructor the behaviour is built with:
+    no letter `DepthBehavior::bounded` (or `Unbounded` when both are open), `x`
+    `DepthMinMax::from_depths_or_max`, `m` `DepthMin::from_min_or_unbounded`, `v<min>@<lower>`
+    `DepthBehavior::bounded_at_depth_variance` with the lower depth of the pattern -/
+def parseRoute (minS : String) : DepthBehavior.Route × String :=
+  match minS.toList with
+  | 'x' :: r => (.depthsOrMax, String.ofList r)
+  | 'm' :: r => (.minOrUnbounded, String.ofList r)
+  | 'v' :: r =>
+    match (String.ofList r).splitOn "@" with
+    | [a, l] => (.atVariance (l.toNat?.getD 0), a)
+    | _ => (.atVariance 0, String.ofList r)
+  | _ => (.bounded, minS)
+
+def behaviourOf (minS maxS : String) : Option DepthBehavior :=
+  let (route, mnS) := parseRoute minS
+  DepthBehavior.ofRoute route (optNat mnS) (optNat maxS)
+
 /-- `W <mode> <base> <expr> <link> <min> <max> <stack> <root> <rec>`; with `stats` the number of
     entries that cancelled the walk of a directory is appended (for the coverage histogram) -/
 def cmdWith (stats : Bool) (args : List String) : String :=
@@ -119,9 +138,9 @@ def cmdWith (stats : Bool) (args : List String) : String :=
   | [mode, baseH, exprH, linkS, minS, maxS, stackS, rootH, recS] =>
     let follow := linkS == "t"
     -- the harness rejects the depth bounds before anything else
-    match depthBounds (optNat minS) (optNat maxS) 0 with
+    match behaviourOf minS maxS with
     | none => "depthnone"
-    | some _ =>
+    | some behaviour =>
     let glob? : Option (Option Tok) := if mode == "g" then (build (unhex exprH)).map some else some none
     match glob? with
     | none => "globerr"
@@ -138,7 +157,7 @@ def cmdWith (stats : Bool) (args : List String) : String :=
           (r, some ⟨encodeTop t, walkPrograms t, pivot⟩)
         | none => (base, none)
       let π : Pipeline := { σ := drvSem, root := walkRoot, glob := prog, layers := layers }
-      match depthBounds (optNat minS) (optNat maxS) π.pivot with
+      match some (behaviour.atPivot π.pivot) with
       | none => "depthnone"
       | some (mn, mx) =>
         let absolute : Option Str :=
